@@ -207,9 +207,32 @@ def run_cases(ctx, n, tag):
         encoding_case(ctx, f"{tag}{i}.enc")
 
 
+def near_tie_relabel(ctx, n):
+    """two references competing for one prediction with IoUs ~1e-7 apart: exchanging the two reference labels (an
+    injective renaming) must not change any metric"""
+    for k in range(n):
+        sc = oracle.near_tie_scene(ctx.rng)
+        if sc is None:
+            continue
+        build, better, gap = sc
+        cfg = E.mk_cfg("UNMATCHED", ["IOU", "DSC", "RVD"], matcher=E.naive("IOU", (1, 5)))
+        p1, r1 = build(1, 2)
+        p2, r2 = build(2, 1)
+        a, b = E.run_impl(cfg, p1, r1), E.run_impl(cfg, p2, r2)
+        inp = {"shape": list(p1.shape), "near_tie": True, "gap": gap, "better": better, "cfg": cfg, "src": f"neartie{k}",
+               "pred": gen.arr_json(p1), "ref": gen.arr_json(r1), "dtype": "uint16", "sigma": {"7": 7}, "tau": {"1": 2, "2": 1}}
+        ctx.case(inp, True)
+        ctx.count("near_tie_relabel")
+        d = (a if isinstance(a, str) else b) if isinstance(a, str) or isinstance(b, str) else summ_equal(a["ungrouped"], b["ungrouped"], cfg["eval_metrics"])
+        if d:
+            ctx.violation(f"result changes when the two reference labels are exchanged (IoUs {gap:.2e} apart): {d}", inp,
+                          impl={"labels_1_2": a, "labels_2_1": b}, key={"kind": "not-invariant"})
+
+
 def run(ctx):
     corpus(ctx)
     wrap_sum_corpus(ctx)
+    near_tie_relabel(ctx, ctx.scale(4, 30))
     run_cases(ctx, ctx.scale(250, 2500), "rand")
 
 
